@@ -41,8 +41,13 @@ def sysroot():
 def extract(config='ship'):
     """returns path of the fact file for the current tree; raises SystemExit(2) on failure"""
     if not os.path.exists(DRIVER):
-        sys.stderr.write('mtsa: driver not built (run MANIFEST.setup_cmd)\n')
-        raise SystemExit(2)
+        # MANIFEST.setup_cmd was not run (fresh restore): build the extractor now (offline, ~20 s)
+        sys.stderr.write('mtsa: building the fact extractor (MANIFEST.setup_cmd)\n')
+        r = subprocess.run(['cargo', 'build', '--release', '--offline'], cwd=os.path.join(VERIF, 'driver'),
+                           env=dict(os.environ, CARGO_NET_OFFLINE='true'), stdout=subprocess.PIPE, stderr=subprocess.STDOUT, text=True)
+        if r.returncode != 0 or not os.path.exists(DRIVER):
+            sys.stderr.write('mtsa: driver could not be built:\n%s\n' % r.stdout[-2000:])
+            raise SystemExit(2)
     th = tree_hash()
     outdir = os.path.join(CACHE, 'facts', th)
     fpath = os.path.join(outdir, 'facts-%s.json' % config)
